@@ -1,6 +1,8 @@
 import Driver.Proto
 import Driver.C12
 import Driver.C12Mon
+import Driver.C13
+import Driver.C13Mon
 import Driver.C14
 import Driver.C14Mon
 import Driver.C15
@@ -16,6 +18,8 @@ import Driver.C20Mon
 def suites : List (String × Driver.Suite) :=
   Driver.C12.suites ++
   Driver.C12Mon.suites ++
+  Driver.C13.suites ++
+  Driver.C13Mon.suites ++
   Driver.C14.suites ++
   Driver.C14Mon.suites ++
   Driver.C15.suites ++
